@@ -438,31 +438,64 @@ static void drive_nodeparse(const testcase *tc, vf_rng *r)
 	MPT_STRUCT(node) root = MPT_NODE_INIT;
 	static bytes before, after;
 	uint8_t *text = vf_xalloc(tc->doc.n);
+	char *limits = 0;
+	size_t limlen = 0;
 	FILE *fp;
 	int ret, populated = vf_chance(r, 2, 3);
+	int refuse = (int) vf_below(r, 8);      /* 0: limits string with a character that is no flag, 1: no file */
+	const char *why = "";
 
 	memcpy(text, tc->doc.d, tc->doc.n);
 	fp = tc->doc.n ? fmemopen(text, tc->doc.n, "r") : fopen("/dev/null", "r");
 	if (!fp) vf_inconclusive("cannot open memory stream of %zu bytes", tc->doc.n);
 	if (populated) build_existing(r, &root);
+
+	/* name limits in an exact-size block */
+	if (refuse == 0) {
+		static const char noflag[] = "xyzXQ17-_?.:gG";
+		const char *base = tc->limits ? tc->limits : "ns";
+		size_t n = strlen(base), pos = vf_below(r, (uint32_t) n + 1);
+		limlen = n + 2;
+		limits = vf_xalloc(limlen);
+		memcpy(limits, base, pos);
+		limits[pos] = noflag[vf_below(r, sizeof(noflag) - 1)];
+		memcpy(limits + pos + 1, base + pos, n - pos + 1);
+		why = "name limits with a character that is no flag";
+		vf_count("fault:node_parse-bad-limits", 1);
+	}
+	else if (tc->limits) {
+		limlen = strlen(tc->limits) + 1;
+		limits = vf_xalloc(limlen);
+		memcpy(limits, tc->limits, limlen);
+	}
+	if (refuse == 1) {
+		why = "no file";
+		vf_count("fault:node_parse-null-file", 1);
+	}
+	if (!tc->f.next) why = "format family without parser";
+
 	snapshot(&before, &root);
-	vf_fp_u64(0xD0 ^ ((uint64_t) populated << 8));
-	vf_log("D: mpt_node_parse %s limits=%s existing=%zu", tc->desc, tc->limits ? tc->limits : "(default)", walk(root.children, 0));
+	vf_fp_u64(0xD0 ^ ((uint64_t) populated << 8) ^ ((uint64_t) refuse << 12));
+	vf_log("D: mpt_node_parse %s limits=%s file=%s existing=%zu", tc->desc, limits ? limits : "(default)", refuse == 1 ? "NULL" : "stream", walk(root.children, 0));
 	vf_at("mpt_node_parse");
 	vf_count("mpt_node_parse", 1);
-	ret = mpt_node_parse(&root, fp, tc->f.null ? 0 : tc->fmtarg ? tc->fmtarg : tc->f.str, tc->limits, 0);
+	ret = mpt_node_parse(&root, refuse == 1 ? 0 : fp, tc->f.null ? 0 : tc->fmtarg ? tc->fmtarg : tc->f.str, limits, 0);
 	vf_log("D: = %d (%s)", ret, retname(ret));
 	count_ret("D", ret);
 	if (!tc->f.next) {
 		VF_CHECK(ret < 0, "model:node_parse:unknown-family-accepted", "D %s: format type '%c' has no parser but %d was returned", tc->desc, tc->f.type, ret);
 	}
+	if (refuse < 2) {
+		VF_CHECK(ret < 0, "model:node_parse:bad-argument-accepted", "D %s: %s (limits \"%s\") but %d was returned", tc->desc, why, limits ? limits : "", ret);
+	}
 	if (ret < 0) {
 		snapshot(&after, &root);
 		vf_count("monitor:snapshot-compared", 1);
 		if (root.children) vf_count("monitor:node_parse-snapshot-nonempty", 1);
+		if ((refuse < 2 || !tc->f.next) && populated) vf_count("monitor:node_parse-refused-argument-on-populated-target", 1);
 		if (before.n != after.n || memcmp(before.d, after.d, before.n)) {
-			vf_fail("model:node_parse:tree-changed-on-failure", "D %s: returned %d (%s) but the serialised target tree differs (sizes %zu / %zu)",
-			        tc->desc, ret, retname(ret), before.n, after.n);
+			vf_fail("model:node_parse:tree-changed-on-failure", "D %s: returned %d (%s)%s%s but the serialised target tree differs (sizes %zu / %zu)",
+			        tc->desc, ret, retname(ret), *why ? " for " : "", why, before.n, after.n);
 		}
 	} else {
 		vf_at("mpt_node_data");
@@ -471,6 +504,7 @@ static void drive_nodeparse(const testcase *tc, vf_rng *r)
 	}
 	fclose(fp);
 	vf_xfree(text, tc->doc.n);
+	if (limits) vf_xfree(limits, limlen);
 	vf_at("mpt_node_clear");
 	mpt_node_clear(&root);
 }
